@@ -4,6 +4,7 @@ import (
 	"fmt"
 	"os"
 	"strings"
+	"sync"
 	"time"
 )
 
@@ -46,12 +47,149 @@ func (g *gen) laneReal() {
 			g.skipWebH2 = true
 		}
 	}
-	g.realHTTP1()
-	g.realH2C()
-	g.realGRPC()
-	g.realWS()
-	g.realTruncation()
-	g.realInterleave()
+	g.timed("realHTTP1", g.realHTTP1)
+	g.timed("realH2C", g.realH2C)
+	g.timed("realGRPC", g.realGRPC)
+	g.timed("realWS", g.realWS)
+	g.timed("realTruncation", g.realTruncation)
+	g.timed("realInterleave", g.realInterleave)
+	g.timed("realServerOptions", g.realServerOptions)
+}
+
+// runParallel executes socket cases at the same time (used for paced
+// clients, whose wall time is mostly sleeping) and accounts them in order.
+func (g *gen) runParallel(cases []*Case) {
+	type result struct {
+		vs      []viol
+		outcome string
+	}
+	res := make([]result, len(cases))
+	var wg sync.WaitGroup
+	for i := range cases {
+		wg.Add(1)
+		go func(i int) {
+			defer wg.Done()
+			res[i].vs, res[i].outcome = g.execReal(cases[i])
+		}(i)
+	}
+	wg.Wait()
+	for i := range cases {
+		g.account(cases[i], res[i].vs, res[i].outcome)
+	}
+}
+
+// realServerOptions: servers built by larking.NewServer from muxes / with
+// options that must not affect streams: a small ConnectionTimeoutOption with
+// paced clients whose streams outlive it several times, a large one, and a
+// MuxHandleOption path prefix. Also multi-member gzip bodies over sockets.
+func (g *gen) realServerOptions() {
+	r := g.r
+	perMsg := func(c *Case) []int {
+		var cuts []int
+		for _, s := range c.Segs {
+			cuts = append(cuts, s.End-s.Start)
+		}
+		return cuts
+	}
+	mk := func(lane string, tc tcombo, shape string, kinds []string, opt string, pace int) *Case {
+		c := &Case{Lane: lane, T: tc.T, Codec: tc.Codec, CE: tc.CE, Shape: shape, Trunc: -1, SrvOpt: opt, PaceMs: pace, Sched: "server-option"}
+		if pace > 0 {
+			c.Sched = "paced-client"
+		}
+		c.Msgs = g.msgs(kinds, tc, 0)
+		switch shape {
+		case "cs":
+			c.Reply = [][]byte{g.reply(len(kinds))}
+		case "bidi":
+			c.Echo = true
+			c.EchoMode = "long"
+			c.Step = lane != "h1" && lane != "h1-chunked"
+			if !c.Step {
+				c.Echo = false // HTTP/1 is half-duplex: collect, then reply
+				c.Reply = g.msgs([]string{"T", "D9"}, tc, 0)
+			}
+		}
+		if tc.T == "ws" {
+			c.Sched = "text-frames"
+			c.Body, c.Segs = wsFrames(c, g.wsMask())
+		} else {
+			build(c, bodyOpt{})
+			c.Cuts = perMsg(c)
+		}
+		return c
+	}
+	// paced clients against a small connection timeout: 4 messages, the
+	// stream stays open about three times as long as the option
+	pace := int(connTimeoutSmall/time.Millisecond) * 3 / 4
+	kinds := []string{"T", "D40", "X", "D9"}
+	rounds := r.Pick(1, 3)
+	for round := 0; round < rounds; round++ {
+		paced := []*Case{
+			mk("grpc-go", tcombo{"grpc", "proto", ""}, "bidi", kinds, "conn-timeout-small", pace),
+			mk("grpc-go", tcombo{"grpc", "gzip", ""}, "cs", kinds, "conn-timeout-small", pace),
+			mk("h2c", tcombo{"grpc", "proto", ""}, "bidi", kinds, "conn-timeout-small", pace),
+			mk("h2c", tcombo{"http", "json", ""}, "bidi", kinds, "conn-timeout-small", pace),
+			mk("h2c", tcombo{"http", "proto", ""}, "cs", kinds, "conn-timeout-small", pace),
+			mk("h2c", tcombo{"grpc-web", "proto", ""}, "bidi", kinds, "conn-timeout-small", pace),
+			mk("h1-chunked", tcombo{"http", "json", ""}, "cs", kinds, "conn-timeout-small", pace),
+			mk("h1-chunked", tcombo{"http", "proto", ""}, "bidi", kinds, "conn-timeout-small", pace),
+			mk("h1-chunked", tcombo{"grpc-web", "proto", ""}, "cs", kinds, "conn-timeout-small", pace),
+			mk("h1-chunked", tcombo{"grpc-web-text", "proto", ""}, "cs", kinds, "conn-timeout-small", pace),
+			mk("ws", tcombo{"ws", "json", ""}, "bidi", kinds, "conn-timeout-small", pace),
+		}
+		if r.Thorough() {
+			// the same pacing against the default and the large timeout
+			for _, opt := range []string{"", "conn-timeout-large"} {
+				paced = append(paced,
+					mk("grpc-go", tcombo{"grpc", "proto", ""}, "bidi", kinds, opt, pace),
+					mk("h2c", tcombo{"http", "json", ""}, "bidi", kinds, opt, pace),
+					mk("h1-chunked", tcombo{"http", "json", ""}, "cs", kinds, opt, pace),
+					mk("ws", tcombo{"ws", "json", ""}, "bidi", kinds, opt, pace))
+			}
+		}
+		g.runParallel(paced)
+	}
+	// unpaced streams on servers with the other options
+	for _, opt := range []string{"conn-timeout-small", "conn-timeout-large", "prefix"} {
+		for si, kinds := range [][]string{{"T", "E", "D300"}, {"H0", "X", "T", "D40", "I9"}} {
+			if !r.Thorough() && si > 0 && opt != "prefix" {
+				continue
+			}
+			for _, lane := range []string{"h1", "h1-chunked", "h2c", "grpc-go", "ws"} {
+				for _, tc := range []tcombo{{"http", "json", ""}, {"http", "proto", ""}, {"grpc", "proto", ""}, {"grpc-web", "proto", ""}, {"ws", "json", ""}} {
+					switch {
+					case (lane == "ws") != (tc.T == "ws"):
+						continue
+					case (lane == "grpc-go") && (tc.T != "grpc" || opt == "prefix"):
+						continue
+					case tc.T == "grpc" && (lane == "h1" || lane == "h1-chunked"):
+						continue
+					}
+					for _, shape := range []string{"cs", "bidi"} {
+						g.runReal(mk(lane, tc, shape, kinds, opt, 0))
+					}
+				}
+			}
+		}
+	}
+	// multi-member gzip request bodies over sockets
+	for _, lane := range []string{"h1", "h1-chunked", "h2c"} {
+		for _, tc := range []tcombo{{"http", "json", "gzip"}, {"http", "proto", "gzip"}} {
+			for _, lay := range []string{"per-message", "random", "empty-end"} {
+				c := &Case{Lane: lane, T: tc.T, Codec: tc.Codec, CE: "gzip", Shape: "cs", Trunc: -1, Sched: "gzip-members"}
+				c.Msgs = g.msgs([]string{"T", "D40", "X", "E", "D9"}, tc, 0)
+				c.Reply = [][]byte{g.reply(5)}
+				build(c, bodyOpt{members: lay, rng: g.rng})
+				if lane != "h1" {
+					c.Cuts = g.randomCuts(len(c.Body))
+				}
+				g.runReal(c)
+			}
+		}
+		c := &Case{Lane: lane, T: "http", Codec: "httpbody", CE: "gzip", Shape: "upload", Limit: 64, Trunc: -1, Sched: "gzip-members", Msgs: [][]byte{prf(g.rng, 3*64+5)}, Reply: [][]byte{{}}}
+		build(c, bodyOpt{members: "random", rng: g.rng})
+		g.runReal(c)
+	}
 }
 
 // realInterleave: ping-pong handlers over full-duplex sockets with the whole
